@@ -135,6 +135,7 @@ type simNode struct {
 	snapGate *gate
 	snapAt   string // hook name the snapshot goroutine is parked at
 	snapTask *task  // fsmSnapReq task of the running snapshot goroutine
+	snapArgs string // what the running snapshot goroutine captured when it was started
 
 	lis       *simListener
 	serveDone chan struct{}
